@@ -13,18 +13,19 @@ import (
 )
 
 type Engine struct {
-	repo      string
-	prog      *ssa.Program
-	pkgs      []*packages.Package
-	allPkgs   map[string]*packages.Package
-	ssaPkgs   map[string]*ssa.Package
-	specs     *SpecSet
-	typeIDs   map[string]int
-	funcIDs   map[*ssa.Function]int
-	debug     bool
-	guardHook func(x *Executor, st *State, a *Addr, reach string)
-	constGlob map[string]bool
-	loadSecs  float64
+	repo          string
+	prog          *ssa.Program
+	pkgs          []*packages.Package
+	allPkgs       map[string]*packages.Package
+	ssaPkgs       map[string]*ssa.Package
+	specs         *SpecSet
+	typeIDs       map[string]int
+	funcIDs       map[*ssa.Function]int
+	debug         bool
+	guardHook     func(x *Executor, st *State, a *Addr, reach string)
+	constGlob     map[string]bool
+	constErrCache map[*ssa.Global]bool
+	loadSecs      float64
 }
 
 func (eng *Engine) typeID(t types.Type) int {
@@ -56,6 +57,69 @@ func (eng *Engine) funcID(f *ssa.Function) int {
 }
 
 func (eng *Engine) isConstGlobal(comp string) bool { return eng.constGlob[comp] }
+
+// constErrGlobal: a package-level variable of type error that is stored to only in the package
+// initialiser is a non-nil constant (checked syntactically over the SSA of its package).
+func (eng *Engine) constErrGlobal(g *ssa.Global, comp string) bool {
+	if v, ok := eng.constErrCache[g]; ok {
+		return v
+	}
+	res := false
+	pt := g.Type().(*types.Pointer).Elem()
+	if types.Identical(pt, types.Universe.Lookup("error").Type()) {
+		res = true
+		stores := 0
+		var visit func(fn *ssa.Function)
+		visit = func(fn *ssa.Function) {
+			for _, b := range fn.Blocks {
+				for _, in := range b.Instrs {
+					if st, ok := in.(*ssa.Store); ok && st.Addr == g {
+						if fn.Name() != "init" {
+							res = false
+						} else {
+							stores++
+							// must be initialised from a call (errors.New / fmt.Errorf)
+							if _, isCall := st.Val.(*ssa.Call); !isCall {
+								if _, isMk := st.Val.(*ssa.MakeInterface); !isMk {
+									res = false
+								}
+							}
+						}
+					}
+				}
+			}
+			for _, an := range fn.AnonFuncs {
+				visit(an)
+			}
+		}
+		for _, m := range g.Pkg.Members {
+			switch mm := m.(type) {
+			case *ssa.Function:
+				visit(mm)
+			case *ssa.Type:
+				for _, t := range []types.Type{mm.Type(), types.NewPointer(mm.Type())} {
+					ms := eng.prog.MethodSets.MethodSet(t)
+					for i := 0; i < ms.Len(); i++ {
+						if f := eng.prog.MethodValue(ms.At(i)); f != nil && f.Pkg == g.Pkg {
+							visit(f)
+						}
+					}
+				}
+			}
+		}
+		if stores != 1 {
+			res = false
+		}
+	}
+	if eng.constErrCache == nil {
+		eng.constErrCache = map[*ssa.Global]bool{}
+	}
+	eng.constErrCache[g] = res
+	if res {
+		eng.constGlob[comp] = true
+	}
+	return res
+}
 
 func (eng *Engine) typesPkg(path string) *types.Package {
 	if p, ok := eng.allPkgs[path]; ok {
